@@ -534,6 +534,14 @@ JudgeGet(ev, pre, i) ==
      ELSE
         (IF ev.resp.cls # "ok" THEN Viol("C03", [w |-> "get-not-served", cls |-> ev.resp.cls], i) ELSE {}))
 
+\* C03 by the server's own word: it acknowledged writing this resource and no delete of it
+\* since - a PUT with If-None-Match: * must not be carried out (even if the server has "lost" it)
+JudgeAckCond(ev, i) ==
+    IF ev.op = "Put" /\ "acklive" \in DOMAIN ev /\ ev.acklive /\ ev.inm.present /\ ev.inm.star
+       /\ ev.resp.cls = "ok" /\ ~ev.lk
+      THEN Viol("C03", [w |-> "if-none-match-star-accepted-on-an-acknowledged-resource", op |-> ev.op], i)
+      ELSE {}
+
 \* C14: re-uploading what the server serves is a no-op
 JudgeReupload(ev, pre, post, i) ==
     IF ~(ev.op = "Put" /\ ev.re) THEN {} ELSE
@@ -563,7 +571,7 @@ Judge(ev, pre, post, i) ==
                \cup JudgeListing(post, i) \cup JudgeEtags(ev, post, i) \cup JudgeUids(post, i)
                \cup JudgeTags(post, i) \cup JudgeTagFrame(ev, pre, post, i) \cup JudgeCfgFrame(ev, pre, post, i) \cup JudgeGit(ev, pre, post, i) \cup JudgeSync(post, i)
                \cup JudgeMultiget(ev, post, i) \cup JudgeGet(ev, pre, i)
-               \cup JudgeReupload(ev, pre, post, i)
+               \cup JudgeReupload(ev, pre, post, i) \cup JudgeAckCond(ev, i)
     IN  \* a violation that a listed deviation explains exactly becomes a known finding
     { IF v.k = "viol" /\ DevFor(v, ev, pre, post, Tr.cfg) # "" /\ DevFor(v, ev, pre, post, Tr.cfg) \in EnabledDevs
         THEN [k |-> "known", p |-> v.p, w |-> DevFor(v, ev, pre, post, Tr.cfg), d |-> v.d, i |-> v.i]
